@@ -106,7 +106,9 @@ CLAIMED = {
         'build_sym_using_vs write the prescribed value on every orbit (orbit indices separate orbits: collect_orbits), so that in cover, oriented_cover and as_partial_dsym '
         '(all real bodies) chamber d gets the degree r * (m_base(pi d) / r), which is m_base(pi d) whenever the orbit length r in the cover divides it. '
         'cover_for_table and trace_word (real bodies, against the imported contracts of the coset-table unit and of cover): for a valid table and facet words that are words in its '
-        'generators and pairwise undo each other on its rows, the sheet map "trace the facet word from the sheet" meets the preconditions of cover, so the result is a cover with one sheet per row.',
+        'generators and pairwise undo each other on its rows, the sheet map "trace the facet word from the sheet" meets the preconditions of cover, so the result is a cover with one sheet per row; '
+        'subgroup_cover and finite_universal_cover (real bodies) compose an ASSUMED fundamental_group (the syntactic part of C09: facet words mutually inverse or multiplying to a relator) with the '
+        'proved coset_table and cover_for_table.',
    note='Trusted: Verus+Z3, vstd; partial_orientation (Traversal-based) assumed to return some sign vector: the contract holds whatever it returns. Precondition v * size <= usize::MAX. '
         'Not decided by contracts: that r always divides the base degree (holds for covers from coset tables of the fundamental group; depends on C09), connectedness, '
         'orientedness of the oriented cover, covers()/cover_for_table()/finite_universal_cover (depend on C09/C11/C12), the count of covers per subgroup class (bounded stand-in).',
